@@ -365,6 +365,42 @@ def discharge(ctx, body, p, ev, kind):
                         and mentions(lp[1][1], lambda s: s == strip_refs(coll)) and is_call(hp, "::len") and (strip_refs(call_args(hp)[0]) == strip_refs(coll) or mentions(coll, lambda s: s == strip_refs(call_args(hp)[0]))):
                     return "G6-suffix-from-position"
             return None
+        if last == "index" and ("for str" in nm or "String" in nm) and body.key == "dewey::Dewey::new" and content(ev.args[0]) == ("param", 1) \
+                and _lib.canon_range(ev.args[0], ev.args[1]) is not None:
+            # the slices of the pattern between recorded operator positions: pattern[rec0.vstart..], [rec0.vstart..rec1.start], [rec1.vstart..], [0..rec0.start].
+            # Every recorded position is a boundary of an ASCII operator, increasing along the vector, and vstart <= the next record's start
+            # (the invariant of panic_exemptions.json for these sites): it rests on C02's D1-SCAN / D1-SLICES / D1-VALIDATE, which are re-evaluated here.
+            import rules.c02 as c02
+            bad = required_rules_failing(ctx, "C02", ["D1-SCAN", "D1-SLICES", "D1-VALIDATE"])      # (evaluating C02 also fixes which field plays which role)
+            lo_, hi_ = _lib.canon_range(ev.args[0], ev.args[1])
+
+            def bound(b):
+                if b == LEN:
+                    return "len"
+                if const_int(strip_refs(b)) == 0:
+                    return "zero"
+                t_ = strip_refs(b)
+                while isinstance(t_, tuple) and t_ and t_[0] == "deref":
+                    t_ = strip_refs(t_[1])
+                if isinstance(t_, tuple) and t_ and t_[0] == "field":
+                    el = element_of(t_[1])
+                    if el is not None and isinstance(el[0], tuple) and el[0] and el[0][0] in ("havoc", "mutated"):
+                        role = [r for r, i in c02.ROLE.items() if i == t_[2]]
+                        return (el[1], role[0]) if role else None
+                return None
+            pair = (bound(lo_), bound(hi_))
+            if pair in (((0, "vstart"), "len"), ((0, "vstart"), (1, "start")), ((1, "vstart"), "len"), ("zero", (0, "start"))):
+                if not bad:
+                    # ... and the record used exists on this path (length facts, G1)
+                    need = max([x[0] for x in pair if isinstance(x, tuple)] or [0])
+                    recs = [strip_refs(x) for x in (lo_, hi_) if isinstance(bound(x), tuple)]
+                    colls = []
+                    for t_ in recs:
+                        while isinstance(t_, tuple) and t_ and t_[0] == "deref":
+                            t_ = strip_refs(t_[1])
+                        colls.append(element_of(t_[1])[0])
+                    if colls and all(len_gt(p, bb, c_, need) for c_ in colls):
+                        return "G8-operator-record-slices"
         if last == "index" and ("for str" in nm or "String" in nm) and _lib.canon_range(ev.args[0], ev.args[1]) is not None:
             # a string cut at 0 / len / the first position where a predicate holds: s.find(pred) (always a character boundary), or
             # s.bytes().position(pred) when pred holds for every non-ASCII byte (everything before the position is then ASCII)
